@@ -31,6 +31,7 @@ class Engine:
         self.timeout_ms = timeout_ms
         self.concrete = False  # concrete (native) mode: no branching allowed
         self.fresh_solver_per_path = False
+        self.cross_budget = 0  # number of unsat path verdicts to re-decide with cvc5
         self.confirm = None  # callback(name, model) -> bool: does the model reproduce natively?
         self.confirm_tries = 12
         self.blocking_terms = lambda model: []
@@ -238,6 +239,40 @@ class Engine:
         self.stats["decisions"] += 1
         return d
 
+    def _cross_check(self, bad):
+        """re-decide 'path condition and not(obligations)' with cvc5 on the SMT-LIB text z3 exports"""
+        try:
+            import cvc5
+        except Exception:  # noqa
+            self.stats["cvc5_unavailable"] = self.stats.get("cvc5_unavailable", 0) + 1
+            return
+        self.solver.push()
+        self.solver.add(bad)
+        txt = self.solver.to_smt2()
+        self.solver.pop()
+        t = time.time()
+        verdict = "error"
+        try:
+            slv = cvc5.Solver()
+            slv.setLogic("ALL")
+            slv.setOption("tlimit-per", "20000")
+            p = cvc5.InputParser(slv)
+            p.setStringInput(cvc5.InputLanguage.SMT_LIB_2_6, txt, "q")
+            sm = p.getSymbolManager()
+            while True:
+                c = p.nextCommand()
+                if c.isNull():
+                    break
+                out = c.invoke(slv, sm).strip()
+                if out in ("sat", "unsat", "unknown"):
+                    verdict = out
+        except Exception as e:  # noqa
+            verdict = "error"
+        self.stats["cvc5_s"] = self.stats.get("cvc5_s", 0.0) + time.time() - t
+        self.stats["cvc5_" + verdict] = self.stats.get("cvc5_" + verdict, 0) + 1
+        if verdict == "sat":
+            self.inconclusive.append("solver disagreement: z3 says unsat, cvc5 says sat on a path obligation")
+
     def get_model(self, timeout_ms=None):
         if self.model is None:
             if timeout_ms is not None:
@@ -305,6 +340,9 @@ class Engine:
                 r, m = self._check(bad)
                 if r == "unsat":
                     self.stats["discharged"] += len(obs)
+                    if self.cross_budget > 0:
+                        self.cross_budget -= 1
+                        self._cross_check(bad)
                 else:
                     for name, ob in obs:
                         r2, m2 = self._check(z3.Not(ob))
